@@ -237,6 +237,11 @@ func (m *Machine) verifIntrinsic(short string, fn *ssa.Function, args []Value) (
 		}
 		m.assume(c)
 		return nil, true
+	case "verifPrefer":
+		if c := termOf(args[0]); !c.IsConst() {
+			m.prefers = append(m.prefers, c)
+		}
+		return nil, true
 	case "verifAssert":
 		prop, label := cstr(args[0]), cstr(args[1])
 		if m.cfg.Prop != "" && prop != m.cfg.Prop && prop != "*" {
@@ -920,7 +925,9 @@ func (m *Machine) libModel(pkg, name string, fn *ssa.Function, args []Value) (Va
 	case "time.Sleep":
 		m.yieldPoint("sleep")
 		return nil, true
-	case "time.runtimeNano", "time.now":
+	case "time.runtimeNano":
+		return mkI(1000000, 64), true
+	case "time.now":
 		unsupported("runtime clock reached without a harness stub (%s)", name)
 	case "reflect.TypeOf", "internal/reflectlite.TypeOf":
 		unsupported("reflection (%s) @ %s", name, m.where())
